@@ -5,7 +5,8 @@ import vlib
 HARNESSES = ("objtree_h",)
 MLS = ("objtree",)
 THEOREMS = ["C20_order", "C20_register_occupied_noop", "C20_register_free_succeeds", "C20_children", "C20_tree_invariant",
-            "C20_refinement", "C20_error_partial", "C20_error_root_fallback", "C20_error_refuted"]
+            "C20_refinement", "C20_error_partial", "C20_error_root_fallback", "C20_error_refuted",
+            "C20_children_oracle", "C20_dispatch_oracle", "C20_known_object_oracle"]
 
 # path elements whose strcmp order is easy to get wrong: prefixes of each other,
 # '0' < 'A' < 'Z' < '_' < 'a', siblings that sort adjacently
@@ -30,7 +31,7 @@ def gen_random_history(rnd, mode, big=False):
                 universe.add(base + (rnd.choice(elems), rnd.choice(elems)))
         else:
             universe.add(tuple(rnd.choice(elems) for _ in range(rnd.randint(0, depth))))
-    for p in list(universe):            # shared prefixes
+    for p in sorted(universe):          # shared prefixes (sorted: set order depends on the hash seed)
         if p and rnd.random() < 0.5:
             universe.add(p[:-1])
     universe = sorted(universe)
@@ -149,9 +150,9 @@ def run(ctx):
         # the same enumeration up to 2 ops through the real connection
         for toks in gen_exhaustive(U, 2, probes, ["/", "/a", "/a/b", "/aa", "/zz", "/a/b/c"]):
             l = "c " + " ".join(toks); lines.append(l); origin.setdefault(l, "exhaustive")
-        for _ in range(2500 if quick else 150000):
+        for _ in range(9000 if quick else 300000):
             l = "t " + " ".join(gen_random_history(rnd, "t", big=rnd.random() < 0.5)); lines.append(l); origin.setdefault(l, "random")
-        for _ in range(1200 if quick else 50000):
+        for _ in range(3000 if quick else 60000):
             l = "c " + " ".join(gen_random_history(rnd, "c", big=rnd.random() < 0.5)); lines.append(l); origin.setdefault(l, "random")
     seen = set(); uniq = []
     for l in lines:
@@ -169,6 +170,8 @@ def run(ctx):
     n_ops = 0
     n_tokens_checked = 0
     samples = []
+    outcomes = {"H": 0, "M": 0, "O": 0, "register_ok": 0, "register_refused": 0, "unregister_hit": 0, "unregister_miss": 0,
+                "listings_nonempty": 0, "calls_with_2plus_handlers": 0}
     for line, m, i in zip(lines, model, impl):
         if i == "!CRASH" or m == "!CRASH":
             continue
@@ -188,6 +191,15 @@ def run(ctx):
             rep.violation("result count mismatch on `%s`: impl %d model %d spec %d ops %d" % (line[:200], len(it), len(mt), len(st), len(ops)),
                           {"line": line, "impl": i, "model": m, "names": "harness/driver protocol"}, found_input=False)
             continue
+        for a in it:
+            if a[:2] == "c=":
+                outcomes[a[-1]] = outcomes.get(a[-1], 0) + 1
+                if "," in a: outcomes["calls_with_2plus_handlers"] += 1
+            elif a == "1": outcomes["register_ok"] += 1
+            elif a == "0": outcomes["register_refused"] += 1
+            elif a == "u1": outcomes["unregister_hit"] += 1
+            elif a == "u0": outcomes["unregister_miss"] += 1
+            elif a[:2] in ("l=", "i=") and not a.endswith("-"): outcomes["listings_nonempty"] += 1
         for idx, (o, a, b, c) in enumerate(zip(ops, it, mt, st)):
             n_tokens_checked += 1
             if a == b == c:
@@ -202,7 +214,7 @@ def run(ctx):
                     rep.violation("after `%s`: code and model answer %s, the specification demands %s" % (prefix[-300:], a, c), rp)
                 continue
             # implementation != model: is the implementation's behaviour a violation of the property here?
-            if a != c and not f12_shape(a, c):
+            if a != c:
                 rep.violation("after `%s`: implementation answers %s, specification demands %s (model: %s)" % (prefix[-300:], a, c, b), rp)
             else:
                 rp["names"] = "correspondence objtree_h vs ObjTree.ObjTree (%s)" % o.split(":")[0]
@@ -216,7 +228,7 @@ def run(ctx):
                 "(2..14 mutations over generated path sets with shared prefixes, up to 12 adjacently sorting siblings, the root, unregistration in the "
                 "middle, declining and accepting handlers) with interleaved calls / list_registered / Introspect; non-trivial = at least one handler "
                 "was invoked; distinct = distinct history lines" % (3 if quick else 4, 5 if quick else 6),
-        "samples": samples, "input_distribution": dist, "origin": {k: sum(1 for l in lines if origin.get(l) == k) for k in ("corpus", "exhaustive", "random")},
+        "samples": samples, "input_distribution": dist, "observed_by_implementation": outcomes, "origin": {k: sum(1 for l in lines if origin.get(l) == k) for k in ("corpus", "exhaustive", "random")},
         "traces_validated_against_impl": len(lines), "result_tokens_compared": n_tokens_checked,
         "disagreements_checked": len(rep.violations), "exhaustive": False,
         "explanation": "theorems: for every history the trie model refines the flat registration map (order of handlers, occupied-path "
